@@ -38,17 +38,178 @@ Qed.
 Lemma inb_adjust n e dl t : inb n (adjust_and_return e dl t).
 Proof. intros f _. unfold adjust_and_return. destruct (t =? u16t dl); [exact I|]. destruct (adjust_ok e dl _); exact I. Qed.
 
+Lemma inb_get_msg_type n dh : inb n (get_dhcp_msg_type dh n).
+Proof. unfold get_dhcp_msg_type. cbv zeta. inb_go. Qed.
+
 Ltac inb_extra ::=
   first [ apply inb_copy_bytes; pkt_arith
         | apply inb_is_zero_bytes; pkt_arith
         | apply inb_sum16; pkt_arith
         | apply inb_adjust
         | apply inb_rd_cid; pkt_arith
-        | apply inb_cid_scan; pkt_arith ].
+        | apply inb_cid_scan; pkt_arith
+        | apply inb_get_msg_type ].
+
+Lemma inb_extract_cid n dh : inb n (extract_circuit_id_fixed dh n).
+Proof. unfold extract_circuit_id_fixed. cbv zeta. inb_gom. Qed.
+
+Lemma inb_build_opts n opt mt pool sip : opt + 64 <= n -> inb n (build_dhcp_options opt n mt pool sip).
+Proof. intro H. unfold build_dhcp_options. cbv zeta beta. inb_go. Qed.
+
+Ltac inb_extra ::=
+  first [ apply inb_copy_bytes; pkt_arith
+        | apply inb_is_zero_bytes; pkt_arith
+        | apply inb_sum16; pkt_arith
+        | apply inb_adjust
+        | apply inb_get_msg_type
+        | apply inb_extract_cid
+        | apply inb_build_opts; pkt_arith ].
 
 Lemma inb_dhcp mp e n : inb n (dhcp_body mp e n).
 Proof.
-  unfold dhcp_body, get_dhcp_msg_type, extract_circuit_id_fixed, build_dhcp_options, ip_checksum.
-  cbv zeta beta. inb_go.
-  Show.
+  unfold dhcp_body, ip_checksum. cbv zeta. inb_gom.
+Qed.
+
+Theorem no_oob_dhcp : forall mp e f, run (dhcp_fastpath_prog mp e) f <> Fault.
+Proof. intros. apply inb_run. unfold dhcp_fastpath_prog. apply (inb_dl _ (dhcp_body mp e)). apply inb_dhcp. Qed.
+
+(* ---- read-only blocks *)
+Lemma pu_is_zero_bytes f0 Act k off : pu f0 Act (is_zero_bytes k off).
+Proof.
+  revert off; induction k as [|k IH]; intros off; cbn [is_zero_bytes]; [apply pu_ret|].
+  apply pu_bind; [apply pu_rd8|intro b]. destruct (negb (b =? 0)); [apply pu_ret|apply IH].
+Qed.
+Lemma pu_rd_cid f0 Act k i cid_len off : pu f0 Act (rd_cid k i cid_len off).
+Proof.
+  revert i; induction k as [|k IH]; intros i; cbn [rd_cid]; [apply pu_ret|].
+  apply pu_bind; [destruct (i <? cid_len); [apply pu_rd8|apply pu_ret]|intro b].
+  apply pu_bind; [apply IH|intro; apply pu_ret].
+Qed.
+Ltac pu_extra ::= first [apply pu_is_zero_bytes|apply pu_rd_cid].
+Lemma pu_cid_scan f0 Act k pos opts dl : pu f0 Act (cid_scan k pos opts dl).
+Proof.
+  revert pos; induction k as [|k IH]; intros pos; cbn [cid_scan]; [apply pu_ret|].
+  pu_gom; apply IH.
+Qed.
+Lemma pu_get_msg_type f0 Act dh dl : pu f0 Act (get_dhcp_msg_type dh dl).
+Proof. unfold get_dhcp_msg_type. cbv zeta. pu_gom. Qed.
+Ltac pu_extra ::= first [apply pu_is_zero_bytes|apply pu_rd_cid|apply pu_cid_scan|apply pu_get_msg_type].
+Lemma pu_extract_cid f0 Act dh dl : pu f0 Act (extract_circuit_id_fixed dh dl).
+Proof. unfold extract_circuit_id_fixed. cbv zeta. pu_gom. Qed.
+Ltac pu_extra ::= first [apply pu_is_zero_bytes|apply pu_get_msg_type|apply pu_extract_cid].
+
+(* ---- after the first store: no XDP_PASS *)
+Lemma np_copy_bytes P k src dst : np P (fun _ => True) (copy_bytes k src dst).
+Proof.
+  revert src dst; induction k as [|k IH]; intros src dst; cbn [copy_bytes]; [apply np_ret; exact I|].
+  apply np_bind_prim; [apply np_rd8|intro b]. apply np_bind_prim; [apply np_wr8|intro; apply IH].
+Qed.
+Lemma np_is_zero_bytes P k off : np P (fun _ => True) (is_zero_bytes k off).
+Proof.
+  revert off; induction k as [|k IH]; intros off; cbn [is_zero_bytes]; [apply np_ret; exact I|].
+  apply np_bind_prim; [apply np_rd8|intro b]. destruct (negb (b =? 0)); [apply np_ret; exact I|apply IH].
+Qed.
+Lemma np_sum16 P k off : np P (fun _ => True) (sum16 k off).
+Proof.
+  revert off; induction k as [|k IH]; intros off; cbn [sum16]; [apply np_ret; exact I|].
+  apply np_bind_prim; [apply np_rd16|intro w]. apply np_bind_prim; [apply IH|intro; apply np_ret; exact I].
+Qed.
+
+Lemma u16t_small v : v < 65536 -> u16t v = v.
+Proof. intro H. unfold u16t, M16. change 65535 with (N.ones 16). rewrite N.land_ones. apply N.mod_small. exact H. Qed.
+
+Lemma np_adjust e n vo optlen :
+  n < 65536 -> 14 + vo + 20 + 8 + 240 + 64 <= n -> optlen <= 64 ->
+  np is_xdp_pass (fun v => is_xdp_pass v = false)
+     (adjust_and_return e n (u16t (u16t (14 + vo) + u16t (20 + u16t (8 + u16t (240 + optlen)))))).
+Proof.
+  intros Hn Hroom Hopt f. unfold adjust_and_return.
+  rewrite (u16t_small (240 + optlen)) by lia. rewrite (u16t_small (8 + _)) by lia.
+  rewrite (u16t_small (20 + _)) by lia. rewrite (u16t_small (14 + vo)) by lia.
+  rewrite (u16t_small (14 + vo + _)) by lia. rewrite (u16t_small n) by lia.
+  destruct (_ =? n); [reflexivity|].
+  replace (n - n + (14 + vo + (20 + (8 + (240 + optlen))))) with (14 + vo + (20 + (8 + (240 + optlen)))) by lia.
+  unfold adjust_ok.
+  replace (14 <=? _) with true by (symmetry; apply N.leb_le; lia).
+  replace (14 + vo + (20 + (8 + (240 + optlen))) <=? n) with true by (symmetry; apply N.leb_le; lia).
+  reflexivity.
+Qed.
+
+Ltac np_extra ::=
+  first [ apply np_copy_bytes | apply np_is_zero_bytes | apply np_sum16
+        | apply np_adjust; [assumption|pkt_arith|pkt_arith] ].
+
+Lemma pq_dhcp mp e f0 : flen f0 < 65536 -> pq f0 (dhcp_body mp e (flen f0)).
+Proof.
+  intro Hlen. unfold dhcp_body. cbv zeta. pq_go.
+  all: apply pq_np; unfold build_dhcp_options, ip_checksum; cbv zeta beta.
+  np_go.
+Qed.
+
+(* Guard of the partial theorem: an XDP frame shorter than 64 KiB (every real one).  Beyond that the
+   C's `(__u16)(data_end - data)` makes the program ask bpf_xdp_adjust_tail for the wrong delta. *)
+Definition dhcp_guard (f : frame) : bool := flen f <? 65536.
+
+Theorem pass_untouched_dhcp_partial : forall mp e f v f',
+  dhcp_guard f = true -> run (dhcp_fastpath_prog mp e) f = Done v f' -> v = XDP_PASS -> f' = f.
+Proof.
+  intros mp e f v f' G H Hv. apply N.ltb_lt in G. eapply pq_run; [|exact H|exact Hv].
+  unfold dhcp_fastpath_prog. apply (pq_dl _ (dhcp_body mp e)). apply pq_dhcp. exact G.
+Qed.
+
+
+(* ---- verdicts: XDP_PASS or XDP_TX *)
+Definition xdp_pass_or_tx (v : N) : bool := (v =? XDP_PASS) || (v =? XDP_TX).
+
+Lemma vd_copy_bytes S k src dst : vd S (copy_bytes k src dst).
+Proof.
+  revert src dst; induction k as [|k IH]; intros src dst; cbn [copy_bytes]; [apply vd_ret|].
+  apply vd_bind; [apply vd_rd8|intro]. apply vd_bind; [apply vd_wr8|intro; apply IH].
+Qed.
+Lemma vd_is_zero_bytes S k off : vd S (is_zero_bytes k off).
+Proof.
+  revert off; induction k as [|k IH]; intros off; cbn [is_zero_bytes]; [apply vd_ret|].
+  apply vd_bind; [apply vd_rd8|intro b]. destruct (negb (b =? 0)); [apply vd_ret|apply IH].
+Qed.
+Lemma vd_rd_cid S k i cid_len off : vd S (rd_cid k i cid_len off).
+Proof.
+  revert i; induction k as [|k IH]; intros i; cbn [rd_cid]; [apply vd_ret|].
+  apply vd_bind; [destruct (i <? cid_len); [apply vd_rd8|apply vd_ret]|intro b].
+  apply vd_bind; [apply IH|intro; apply vd_ret].
+Qed.
+Lemma vd_sum16 S k off : vd S (sum16 k off).
+Proof.
+  revert off; induction k as [|k IH]; intros off; cbn [sum16]; [apply vd_ret|].
+  apply vd_bind; [apply vd_rd16|intro]. apply vd_bind; [apply IH|intro; apply vd_ret].
+Qed.
+Ltac vd_extra ::= first [apply vd_copy_bytes|apply vd_is_zero_bytes|apply vd_rd_cid|apply vd_sum16].
+Lemma vd_cid_scan S k pos opts dl : vd S (cid_scan k pos opts dl).
+Proof.
+  revert pos; induction k as [|k IH]; intros pos; cbn [cid_scan]; [apply vd_ret|].
+  vd_go; apply IH.
+Qed.
+Ltac vd_extra ::= first [apply vd_copy_bytes|apply vd_is_zero_bytes|apply vd_rd_cid|apply vd_sum16|apply vd_cid_scan].
+Lemma vd_get_msg_type S dh dl : vd S (get_dhcp_msg_type dh dl).
+Proof. unfold get_dhcp_msg_type. cbv zeta. vd_go. Qed.
+Lemma vd_extract_cid S dh dl : vd S (extract_circuit_id_fixed dh dl).
+Proof. unfold extract_circuit_id_fixed. cbv zeta. vd_go. Qed.
+Lemma vd_build_opts opt dl mt pool sip : vd xdp_pass_or_tx (build_dhcp_options opt dl mt pool sip).
+Proof. unfold build_dhcp_options. cbv zeta beta. vd_go. Qed.
+Ltac vd_extra ::=
+  first [apply vd_copy_bytes|apply vd_is_zero_bytes|apply vd_sum16|apply vd_get_msg_type|apply vd_extract_cid|apply vd_build_opts].
+
+Lemma vdr_adjust e dl t : vdr xdp_pass_or_tx (adjust_and_return e dl t).
+Proof. intro f. unfold adjust_and_return. destruct (t =? u16t dl); [reflexivity|]. destruct (adjust_ok e dl _); reflexivity. Qed.
+
+Lemma vdr_dhcp mp e n : vdr xdp_pass_or_tx (dhcp_body mp e n).
+Proof.
+  unfold dhcp_body, ip_checksum. cbv zeta. vdr_gom.
+  all: try apply vdr_adjust.
+Qed.
+
+Theorem verdict_dhcp : forall mp e f v f', run (dhcp_fastpath_prog mp e) f = Done v f' -> v = XDP_PASS \/ v = XDP_TX.
+Proof.
+  intros mp e f v f' H.
+  assert (P : vdr xdp_pass_or_tx (dhcp_fastpath_prog mp e)) by (unfold dhcp_fastpath_prog; apply (vdr_dl _ (dhcp_body mp e)); intro; apply vdr_dhcp).
+  apply (vdr_run _ _ _ _ _ P) in H. unfold xdp_pass_or_tx in H. apply orb_true_iff in H. rewrite !N.eqb_eq in H. exact H.
 Qed.
